@@ -18,7 +18,7 @@
 (*   violation anything else                                                 *)
 (*   drift     (in addition to ok) observation # model-with-Devs             *)
 (***************************************************************************)
-EXTENDS IntSize, Json, SequencesExt
+EXTENDS IntSize, EnumImpl, Json, SequencesExt
 
 CONSTANTS ObsFile, Devs, Judge   \* Judge: which aspect is compared ("verdict", ...)
 
@@ -40,9 +40,17 @@ Explains(e, i) ==
   IN IF ns # {} THEN ns
      ELSE {x \in Devs : \E S \in SUBSET (Devs \ {x}) : ImplV(e, i, S \cup {x}) # ImplV(e, i, S)}
 
+\* value fidelity (Judge = "value"): for a valid document that was accepted, the reflective dump must
+\* hold the document (Decoded) and the re-marshalled JSON must reproduce it (Reproduced)
+ValueOK(e, i, D) ==
+  /\ e.res[i].val.t # "none" /\ Decoded(e.unit.defs, e.unit.schema, e.unit.docs[i], e.res[i].val, D)
+  /\ e.res[i].out.t # "none" /\ Reproduced(e.unit.defs, e.unit.schema, e.unit.docs[i], e.res[i].out)
+
 Class(e, i) ==
   LET ref == RefV(e, i)  o == ObsV(e.res[i])  impl == ImplV(e, i, Devs) IN
   IF ref = Un THEN "un"
+  ELSE IF o = ref /\ Judge = "value" /\ ref = Acc /\ ~ValueOK(e, i, {}) THEN
+       (IF ValueOK(e, i, Devs) THEN "known" ELSE "violation")
   ELSE IF o = ref THEN (IF impl = o THEN "ok" ELSE "drift")
   \* impl # ref here, and Valid(.., {}) = ref, so Devs accounts for the difference; where the model
   \* with Devs is itself undetermined ("un") it predicts nothing and either observation conforms
@@ -51,6 +59,7 @@ Class(e, i) ==
 
 Report(n, e, i, c) ==
   PrintT("REPORT " \o ToJson([l |-> n, i |-> i, class |-> c,
+                             kind |-> IF ObsV(e.res[i]) = RefV(e, i) THEN "value" ELSE "verdict",
                              devs |-> SetToSeq(Explains(e, i)),
                              ref |-> RefV(e, i), obs |-> ObsV(e.res[i]), impl |-> ImplV(e, i, Devs)]))
 
@@ -80,18 +89,32 @@ SizedTypeClass(e) ==
 IsSized(e) == "opts" \in DOMAIN e.unit /\ "minSizedInts" \in DOMAIN e.unit.opts /\ e.unit.opts.minSizedInts
               /\ e.unit.prop = "C15"
 TypeReport(n, e, c) ==
-  PrintT("REPORT " \o ToJson([l |-> n, i |-> 0, class |-> c, devs |-> <<"Float64Bounds">>,
+  PrintT("REPORT " \o ToJson([l |-> n, i |-> 0, class |-> c, devs |-> <<"Float64Bounds">>, kind |-> "gotype",
                              ref |-> "narrowest type holding the admitted interval", obs |-> e.gotype, impl |-> "-"]))
+
+(* ---- C08: one typed constant per listed string of a string enum (read from the emitted source) ---- *)
+EnumOf(un) == IF un.defs # <<>> THEN un.defs[1].s
+              ELSE IF un.use = "items" THEN un.schema.properties[1].s.items ELSE un.schema.properties[1].s
+HasConsts(e) == e.unit.prop = "C08" /\ "consts" \in DOMAIN e
+ConstClass(e) ==
+  LET want == EnumConsts(EnumOf(e.unit))
+      got  == {e.consts[i] : i \in DOMAIN e.consts}
+  IN IF got = want /\ Len(e.consts) = Cardinality(want) THEN "ok" ELSE "violation"
+ConstReport(n, e, c) ==
+  PrintT("REPORT " \o ToJson([l |-> n, i |-> 0, class |-> c, devs |-> <<>>, kind |-> "consts",
+                             ref |-> "one typed constant per listed string", obs |-> ToJson(e.consts), impl |-> "-"]))
 
 Count(cls, c) == Cardinality({i \in DOMAIN cls : cls[i] = c})
 
 Step(n, e, t) ==
   LET cls0 == [i \in DOMAIN e.res |-> Class(e, i)]
       tc   == IF IsSized(e) THEN SizedTypeClass(e) ELSE "none"
-      cls  == IF tc = "none" THEN cls0 ELSE cls0 \o <<tc>>
+      cc   == IF HasConsts(e) THEN ConstClass(e) ELSE "none"
+      cls  == cls0 \o (IF tc = "none" THEN <<>> ELSE <<tc>>) \o (IF cc = "none" THEN <<>> ELSE <<cc>>)
   IN
   IF /\ \A i \in DOMAIN cls0 : cls0[i] \in {"ok", "un"} \/ Report(n, e, i, cls0[i])
      /\ tc \in {"none", "ok", "un"} \/ TypeReport(n, e, tc)
+     /\ cc \in {"none", "ok"} \/ ConstReport(n, e, cc)
   THEN [ok |-> t.ok + Count(cls, "ok") + Count(cls, "drift"), un |-> t.un + Count(cls, "un"),
         known |-> t.known + Count(cls, "known"), viol |-> t.viol + Count(cls, "violation"),
         drift |-> t.drift + Count(cls, "drift"),
